@@ -1,6 +1,6 @@
 """Back ends: z3 (Python API) first, cvc5 (CLI, SMT-LIB2 export) for unknowns.
 
-prove(hyps, goal) checks validity of hyps => goal by refuting hyps /\ not goal.
+prove(hyps, goal) checks validity of hyps => goal by refuting hyps and not goal.
 Returns (status, model_dict, backend, seconds, text) with status in
 {'discharged','refuted','undecided'}.
 """
